@@ -531,3 +531,70 @@ func mustCaller(direct func(*ssa.CallCommon) bool) func(ssa.Instruction) bool {
 	}
 	return func(in ssa.Instruction) bool { return instrOK(in, 0) }
 }
+
+// isHTTPFrameWriter: a function of httpgrpc that takes an io.Writer first,
+// marshals a message and writes it (the delimited-message writer).
+func isHTTPFrameWriter(fn *ssa.Function) bool {
+	if fn == nil || fn.Blocks == nil || !core.PkgIs(fn, "httpgrpc") || len(fn.Params) < 3 || core.TypeStr(fn.Params[0].Type()) != "io.Writer" {
+		return false
+	}
+	marshal, write := false, false
+	core.Instrs(fn, func(in ssa.Instruction) {
+		if call, ok := in.(*ssa.Call); ok {
+			ci := core.InfoOf(&call.Call)
+			if ci.Iface && ci.Name == "Marshal" {
+				marshal = true
+			}
+			if ci.Iface && ci.Name == "Write" {
+				write = true
+			}
+		}
+	})
+	return marshal && write
+}
+
+// httpFrameWriteCall: call writes one delimited message to an HTTP body: it is
+// a call of the frame writer, or of a wrapper of the package that forwards its
+// writer to it (followed to depth 2). end is 1 for the final (trailer) frame,
+// 0 for a data frame, -1 if it is not a constant at this call.
+func httpFrameWriteCall(call *ssa.Call) (ok bool, end int) {
+	return httpFrameWriteCallDepth(call, 0)
+}
+
+func httpFrameWriteCallDepth(call *ssa.Call, depth int) (bool, int) {
+	callee := call.Call.StaticCallee()
+	if callee == nil || callee.Blocks == nil || !core.PkgIs(callee, "httpgrpc") || len(call.Call.Args) < 3 || core.TypeStr(call.Call.Args[0].Type()) != "io.Writer" {
+		return false, -1
+	}
+	if isHTTPFrameWriter(callee) {
+		end := -1
+		for i, pp := range callee.Params {
+			if b, isB := pp.Type().Underlying().(*types.Basic); isB && b.Kind() == types.Bool && i < len(call.Call.Args) {
+				if v, isC := core.ConstBool(call.Call.Args[i]); isC {
+					end = 0
+					if v {
+						end = 1
+					}
+				}
+			}
+		}
+		return true, end
+	}
+	if depth >= 2 {
+		return false, -1
+	}
+	// a wrapper: exactly one frame-write call inside, on the wrapper's own writer
+	var inner []*ssa.Call
+	core.Instrs(callee, func(in ssa.Instruction) {
+		if c2, ok := in.(*ssa.Call); ok {
+			if isW, _ := httpFrameWriteCallDepth(c2, depth+1); isW && c2.Call.Args[0] == ssa.Value(callee.Params[0]) {
+				inner = append(inner, c2)
+			}
+		}
+	})
+	if len(inner) != 1 {
+		return false, -1
+	}
+	_, end := httpFrameWriteCallDepth(inner[0], depth+1)
+	return true, end
+}
